@@ -7,6 +7,12 @@ It never computes a value.  It emits a C++ probe program that includes the real 
 `(long long)E::NAME` for every enumerator, `IsCommand(t)` / `IsResponse(t)` for every `MessageType` enumerator and
 `S::MESSAGE_TYPE`, `(int)S::MESSAGE_VERSION` for every payload struct; the probe is compiled (-std=c++14
 -I$FE_REPO/src) into $FE_BUILD and run, and its output is the table.
+  * every DECLARATION of a function named `IsCommand` / `IsResponse` (free function, overload, member function), with
+    its parameter list as written.  For each declared call form the probe builds an argument of the declared parameter
+    type for every `MessageType` enumerator (the enumerator itself; a default-constructed struct whose `MessageType`
+    field is set to it; an integer cast of it) and prints the result of calling exactly that overload (`callForms`).
+    An occurrence of either name outside a function body that is not a readable declaration is a TranslateError, as
+    is a parameter type for which no argument can be built; a declaration in a header outside messages/ likewise.
 
 Validation of the translator itself (every run):
   * the number of `enum class` blocks read == number of source lines matching `^\\s*enum\\s+class\\b` (grep count);
@@ -94,16 +100,30 @@ RE_MSG_TYPE = re.compile(r'\bMESSAGE_TYPE\s*=')
 RE_MSG_VERSION = re.compile(r'\bMESSAGE_VERSION\s*=')
 RE_STATIC_CONST = re.compile(r'^static\s+const(?:expr)?\s+(?:[A-Za-z_][\w:]*)(?:\s+(?:int|long|char|short))?\s+(\w+)\s*=', re.S)
 RE_ENUMERATOR = re.compile(r'^([A-Za-z_]\w*)\s*(?:=\s*(\S.*))?$', re.S)
+# the two classification functions named by the property (every declaration of either name is a call form)
+CLASSIFIERS = ('IsCommand', 'IsResponse')
+RE_CLASSIFIER_USE = re.compile(r'(?<![\w])(%s)\s*\(' % '|'.join(CLASSIFIERS))
+RE_CLASSIFIER_DECL = re.compile(r'^(?P<pre>[^()=]*?[\w>&*\]]\s*[\s&*])(?:(?P<qual>[A-Za-z_]\w*)\s*::\s*)?(?P<name>%s)\s*\((?P<params>.*)\)'
+                                r'(?P<post>(?:\s|const|noexcept|override|final)*)(?:=\s*(?:0|default|delete))?$' % '|'.join(CLASSIFIERS), re.S)
+RE_MT_FIELD = re.compile(r'^(?:const\s+|volatile\s+|mutable\s+)*MessageType\s+([A-Za-z_]\w*)\s*(?:=.*|\{.*\})?$', re.S)
+INT_TYPES = {'int', 'unsigned', 'unsigned int', 'long', 'unsigned long', 'long long', 'unsigned long long', 'short',
+             'unsigned short', 'size_t', 'int8_t', 'uint8_t', 'int16_t', 'uint16_t', 'int32_t', 'uint32_t', 'int64_t', 'uint64_t'}
 
 
 def parse_header(path):
-    """-> (enums, structs): enums = [{'name': qualified, 'underlying', 'members': [names], 'file', 'line'}],
-    structs = [{'name': qualified, 'file', 'line', 'has_type', 'has_version'}]."""
+    """-> (enums, payload structs, constant groups, classifier declarations, {struct: [MessageType fields]}):
+    enums = [{'name': qualified, 'underlying', 'members': [names], 'file', 'line'}],
+    structs = [{'name': qualified, 'file', 'line'}],
+    classifier declarations = [{'function', 'scope' (struct or None), 'static', 'params': [{'type', 'name', 'default'}],
+    'file', 'line'}] for every declaration of IsCommand / IsResponse."""
     fname = os.path.basename(path)
     raw = open(path).read()
     src = strip_source(raw)
     enums, structs = [], []
-    stack = []                 # entries: ('ns'|'struct'|'other', name, struct-record or None)
+    funcs = []                 # declarations of the classification functions
+    decl_spans = []            # (start, end) of the statement heads recognised as such declarations
+    body_spans = []            # (start, end) of function bodies and other non-declarative blocks
+    stack = []                 # entries: ('ns'|'struct'|'other', name, struct-record or None, position of the {)
     head_start = 0
     i, n = 0, len(src)
 
@@ -117,9 +137,64 @@ def parse_header(path):
             raise TranslateError('%s:%d' % (fname, line_of(i)), 'declaration %s outside namespace %s' % (q, NS_PREFIX))
         return q[len(NS_PREFIX):]
 
+    def classifier_decl(start, end):
+        """A statement head (up to `;` or `{`) at namespace / struct scope that declares IsCommand / IsResponse."""
+        text = src[start:end]
+        if not RE_CLASSIFIER_USE.search(text) or any(s[0] == 'other' for s in stack):
+            return
+        flat = ' '.join(text.split())
+        m = RE_CLASSIFIER_DECL.match(flat)
+        where = '%s:%d' % (fname, line_of(start + len(text) - len(text.lstrip())))
+        if not m or re.search(r'\b(template|operator|typedef|using)\b', m.group('pre')):
+            raise TranslateError(where, 'unreadable declaration of a classification function: %r' % flat[:160])
+        scope = None
+        if stack and stack[-1][0] == 'struct':
+            scope = stack[-1][2]['name']
+        if m.group('qual'):
+            if scope is not None:
+                raise TranslateError(where, 'qualified declaration inside a struct: %r' % flat[:160])
+            scope = qualify(m.group('qual'))
+        params = []
+        depth, cur = 0, ''
+        for ch in m.group('params') + ',':
+            if ch in '<([{':
+                depth += 1
+            elif ch in '>)]}':
+                depth -= 1
+            if ch == ',' and depth == 0:
+                if cur.strip() and cur.strip() != 'void':
+                    params.append(parse_param(cur.strip(), where))
+                cur = ''
+            else:
+                cur += ch
+        funcs.append({'function': m.group('name'), 'scope': scope, 'static': bool(re.search(r'\bstatic\b', m.group('pre'))),
+                      'friend': bool(re.search(r'\bfriend\b', m.group('pre'))),
+                      'params': params, 'file': fname, 'line': line_of(start + text.find(m.group('name')))})
+        decl_spans.append((start, end))
+
+    def parse_param(text, where):
+        default = None
+        if '=' in text:
+            text, default = [x.strip() for x in text.split('=', 1)]
+        mm = re.match(r'^(.*?[\s&*])([A-Za-z_]\w*)$', text, re.S)
+        name = None
+        if mm and re.sub(r'\b(const|volatile|struct|class|enum|unsigned|signed|long|short)\b|[\s&*]', '', mm.group(1)):
+            text, name = mm.group(1).strip(), mm.group(2)
+        elif mm and re.sub(r'\b(const|volatile|struct|class|enum)\b|[\s&*]', '', mm.group(1)) and mm.group(2) not in (
+                'int', 'long', 'short', 'char', 'unsigned', 'signed'):
+            text, name = mm.group(1).strip(), mm.group(2)
+        if '(' in text or '[' in text or '...' in text:
+            raise TranslateError(where, 'unreadable parameter %r of a classification function' % text)
+        return {'type': ' '.join(text.replace('&', ' & ').replace('*', ' * ').split()).replace(' &', '&').replace(' *', '*'),
+                'name': name, 'default': default}
+
     def statement(text, pos):
+        classifier_decl(pos - len(text), pos)
         if stack and stack[-1][0] == 'struct':
             rec = stack[-1][2]
+            mf = RE_MT_FIELD.match(' '.join(text.split()))
+            if mf:
+                rec['mt_fields'].append(mf.group(1))
             if RE_MSG_TYPE.search(text):
                 rec['has_type'] += 1
             if RE_MSG_VERSION.search(text):
@@ -168,31 +243,39 @@ def parse_header(path):
                 i = k
                 head_start = i + 1
             elif m_ns:
-                stack.append(('ns', m_ns.group(1), None))
+                stack.append(('ns', m_ns.group(1), None, i))
                 head_start = i + 1
             elif m_st and '=' not in head and '(' not in head.replace('P1_ALIGNAS(', '').replace('alignas(', ''):
-                rec = {'name': None, 'file': fname, 'line': line_of(i), 'has_type': 0, 'has_version': 0, 'consts': []}
+                rec = {'name': None, 'file': fname, 'line': line_of(i), 'has_type': 0, 'has_version': 0, 'consts': [],
+                       'mt_fields': []}
                 if any(s[0] == 'other' for s in stack):
-                    stack.append(('other', None, None))
+                    stack.append(('other', None, None, i))
                 else:
                     rec['name'] = qualify(m_st.group(1))
-                    stack.append(('struct', m_st.group(1), rec))
+                    stack.append(('struct', m_st.group(1), rec, i))
                     structs.append(rec)
                 head_start = i + 1
             else:
-                stack.append(('other', None, None))
+                classifier_decl(head_start, i)        # a function definition: its head may declare a call form
+                stack.append(('other', None, None, i))
                 head_start = i + 1
         elif c == '}':
             if not stack:
                 raise TranslateError('%s:%d' % (fname, line_of(i)), 'unbalanced }')
-            kind = stack.pop()[0]
+            top = stack.pop()
             head_start = i + 1
-            if kind == 'other':
-                pass
+            if top[0] == 'other' and not any(s[0] == 'other' for s in stack):
+                body_spans.append((top[3], i))
         i += 1
     if stack:
         raise TranslateError(fname, 'unbalanced { at end of file (%s)' % [s[1] for s in stack])
 
+    # --- every occurrence of IsCommand( / IsResponse( is a call inside a body or a declaration that was read ---
+    for mu in RE_CLASSIFIER_USE.finditer(src):
+        pos = mu.start()
+        if not any(a <= pos <= b for a, b in body_spans) and not any(a <= pos <= b for a, b in decl_spans):
+            raise TranslateError('%s:%d' % (fname, line_of(pos)), 'occurrence of %s( outside a function body that was not '
+                                 'read as a declaration' % mu.group(1))
     # --- validation against plain line counts (grep) ---
     n_enum_grep = len(re.findall(r'^\s*enum\s+(?:class|struct)\b', raw, re.M))
     if n_enum_grep != len(enums):
@@ -223,19 +306,22 @@ def parse_header(path):
                                          % (sname, prefix, len(names), n_grep))
                 groups.append({'name': '%s::%s*' % (sname, prefix), 'scope': sname, 'underlying': 'static const members',
                                'members': names, 'file': fname, 'line': s['line']})
-    return enums, payload, groups
+    mt_fields = dict((s['name'], s['mt_fields']) for s in structs if s['name'])
+    return enums, payload, groups, funcs, mt_fields
 
 
 def parse_all(repo):
     paths = header_paths(repo)
     if not paths:
         raise TranslateError(os.path.join(repo, HEADER_DIR), 'no headers found')
-    enums, structs, groups = [], [], []
+    enums, structs, groups, funcs, mt_fields = [], [], [], [], {}
     for p in paths:
-        e, s, g = parse_header(p)
+        e, s, g, f, mf = parse_header(p)
         enums += e
         structs += s
         groups += g
+        funcs += f
+        mt_fields.update(mf)
     if len(groups) != len(CONST_GROUPS):
         raise TranslateError(HEADER_DIR, 'constant groups found: %s, expected %s' % ([g['name'] for g in groups], CONST_GROUPS))
     for what, lst in (('enum class', enums), ('payload struct', structs)):
@@ -244,11 +330,92 @@ def parse_all(repo):
             raise TranslateError(HEADER_DIR, 'two %s blocks with the same qualified name' % what)
     if not any(e['name'] == 'MessageType' for e in enums):
         raise TranslateError(HEADER_DIR + '/defs.h', 'enum class MessageType not found')
-    return paths, enums, structs, groups
+    # the classification functions are declared in the message headers only (a declaration elsewhere would be a call
+    # form the probe does not see)
+    for other in sorted(glob.glob(os.path.join(repo, 'src', '**', '*.h'), recursive=True)):
+        if os.path.realpath(other) in [os.path.realpath(p) for p in paths]:
+            continue
+        txt = strip_source(open(other, errors='replace').read())
+        for mu in re.finditer(r'\bbool\s+(?:\w+\s*::\s*)*(%s)\s*\(' % '|'.join(CLASSIFIERS), txt):
+            raise TranslateError('%s:%d' % (os.path.relpath(other, repo), txt.count('\n', 0, mu.start()) + 1),
+                                 'declaration of %s outside %s' % (mu.group(1), HEADER_DIR))
+    forms = call_forms(funcs, mt_fields)
+    return paths, enums, structs, groups, forms
+
+
+def form_text(f):
+    return '%s%s(%s)%s' % (f['scope'] + '::' if f['scope'] else '', f['function'],
+                           ', '.join(p['type'] for p in f['params']), ' [static]' if f['static'] else '')
+
+
+def call_forms(funcs, mt_fields):
+    """One call form per distinct declaration (a prototype and its definition are the same form).  Each gets the C++
+    text that builds the argument for a MessageType enumerator `%s` and the expression that calls this overload."""
+    forms, seen = [], set()
+    for f in funcs:
+        key = (f['scope'], f['function'], tuple(p['type'] for p in f['params']), f['static'])
+        if key in seen:
+            continue
+        seen.add(key)
+        where = '%s:%d' % (f['file'], f['line'])
+        setup, args = [], []
+        need = [p for p in f['params'] if p['default'] is None]
+        if len(need) > 1 or (not need and len(f['params']) > 0):
+            need = f['params'][:1] if not need else need
+        if len(need) > 1:
+            raise TranslateError(where, 'classification function with %d required parameters: %s' % (len(need), form_text(f)))
+
+        def build(var, typ):
+            base = ' '.join(re.sub(r'\b(const|volatile|struct|class|enum)\b|[&*]', ' ', typ).split())
+            short = base.split('::')[-1]
+            ptr = typ.count('*')
+            if ptr > 1 or typ.endswith('&&'):
+                raise TranslateError(where, 'parameter type %r of %s: no argument can be built' % (typ, form_text(f)))
+            # an argument of exactly the declared type, so that overload resolution picks this declaration and no other:
+            # a const reference / pointer-to-const parameter gets a const lvalue
+            constref = bool(re.search(r'\bconst\b', typ)) and ('&' in typ or ptr)
+            obj = var + '0' if constref else var
+            if short == 'MessageType':
+                setup.append('MessageType %s = MessageType::%%s;' % obj)
+                cands = ['MessageType']
+            elif base in INT_TYPES or base.replace('std::', '') in INT_TYPES:
+                setup.append('%s %s = static_cast<%s>(MessageType::%%s);' % (base, obj, base))
+                cands = [base]
+            else:
+                cands = [n for n in mt_fields if n == base or n.endswith('::' + base)]
+                if len(cands) != 1 or len(mt_fields[cands[0]]) != 1:
+                    raise TranslateError(where, 'parameter type %r of %s: not MessageType, not an integer type and not a struct '
+                                         'with exactly one MessageType field' % (typ, form_text(f)))
+                setup.append('%s %s = %s(); %s.%s = MessageType::%%s;' % (cands[0], obj, cands[0], obj, mt_fields[cands[0]][0]))
+            if constref:
+                setup.append('const %s& %s = %s;' % (cands[0], var, obj))
+            return ('&' if ptr else '') + var
+
+        if need:
+            args.append(build('a', need[0]['type']))
+        member = f['scope'] is not None and not f['static'] and not f['friend']
+        if member:
+            if need:       # the object the member is called on carries no information: default-constructed
+                call = '%s().%s(%s)' % (f['scope'], f['function'], ', '.join(args))
+            else:
+                obj = build('o', f['scope'])
+                call = '%s.%s()' % (obj.lstrip('&'), f['function'])
+        elif f['scope'] is not None and f['static']:
+            call = '%s::%s(%s)' % (f['scope'], f['function'], ', '.join(args))
+        else:
+            if not need:
+                raise TranslateError(where, 'classification function without a parameter: %s' % form_text(f))
+            call = '%s(%s)' % (f['function'], ', '.join(args))
+        forms.append({'function': f['function'], 'scope': f['scope'], 'param': need[0]['type'] if need else '(this)',
+                      'text': form_text(f), 'file': f['file'], 'line': f['line'], 'setup': ' '.join(setup), 'call': call})
+    for fn in CLASSIFIERS:
+        if not any(f['function'] == fn for f in forms):
+            raise TranslateError(HEADER_DIR, 'no declaration of %s found' % fn)
+    return forms
 
 
 # ---- the probe ----------------------------------------------------------------------------------------
-def probe_source(paths, enums, structs, groups=()):
+def probe_source(paths, enums, structs, groups=(), forms=()):
     L = ['// generated by tools/c03_cxx_extract.py - do not edit', '#include <cstdio>']
     for p in paths:
         L.append('#include <point_one/fusion_engine/messages/%s>' % os.path.basename(p))
@@ -260,6 +427,9 @@ def probe_source(paths, enums, structs, groups=()):
             for m in e['members']:
                 L.append('  std::printf("T %s %%d %%d\\n", (int)IsCommand(MessageType::%s), (int)IsResponse(MessageType::%s));'
                          % (m, m, m))
+                for k, f in enumerate(forms):
+                    # exactly the declared overload: the argument has the declared parameter type
+                    L.append('  { %s std::printf("F %d %s %%d\\n", (int)%s); }' % (f['setup'] % m, k, m, f['call']))
     for g in groups:
         for m in g['members']:
             L.append('  std::printf("E %s %s %%lld\\n", (long long)%s::%s);' % (g['name'], m, g['scope'], m))
@@ -301,13 +471,13 @@ def compiler():
     raise RuntimeError('no C++ compiler (g++ / clang++) found')
 
 
-def run_probe(repo, build, paths, enums, structs, groups=(), cxx=None):
+def run_probe(repo, build, paths, enums, structs, groups=(), cxx=None, forms=()):
     os.makedirs(build, exist_ok=True)
     cxx = cxx or compiler()
     src = os.path.join(build, 'c03_probe.cc')
     exe = os.path.join(build, 'c03_probe')
     with open(src, 'w') as f:
-        f.write(probe_source(paths, enums, structs, groups))
+        f.write(probe_source(paths, enums, structs, groups, forms))
     inc = os.path.join(repo, 'src')
     p = subprocess.run([cxx, '-std=c++14', '-O0', '-w', '-I' + inc, src, '-o', exe],
                        stdout=subprocess.PIPE, stderr=subprocess.STDOUT, text=True)
@@ -317,7 +487,7 @@ def run_probe(repo, build, paths, enums, structs, groups=(), cxx=None):
     lines = p.stdout.split('\n')
     if p.returncode != 0 or 'END' not in lines:
         raise TranslateError('c03_probe', 'probe failed: rc=%d %s' % (p.returncode, p.stdout[-500:]))
-    values, classif, regs = {}, {}, {}
+    values, classif, regs, fres = {}, {}, {}, {}
     for ln in lines:
         t = ln.split(' ')
         if t[0] == 'E':
@@ -326,6 +496,8 @@ def run_probe(repo, build, paths, enums, structs, groups=(), cxx=None):
             classif[t[1]] = (t[2] == '1', t[3] == '1')
         elif t[0] == 'S':
             regs[t[1]] = (int(t[2]), int(t[3]))
+        elif t[0] == 'F':
+            fres[(int(t[1]), t[2])] = (t[3] == '1')
     # every name found was printed
     for e in list(enums) + list(groups):
         for m in e['members']:
@@ -334,6 +506,12 @@ def run_probe(repo, build, paths, enums, structs, groups=(), cxx=None):
     for s in structs:
         if s['name'] not in regs:
             raise TranslateError('c03_probe', 'no MESSAGE_TYPE printed for %s' % s['name'])
+    for k, f in enumerate(forms):
+        for e in enums:
+            if e['name'] == 'MessageType':
+                for m in e['members']:
+                    if (k, m) not in fres:
+                        raise TranslateError('c03_probe', 'no result printed for %s on %s' % (f['text'], m))
     # completeness of the enumerator lists
     sw = os.path.join(build, 'c03_switch.cc')
     with open(sw, 'w') as f:
@@ -342,13 +520,14 @@ def run_probe(repo, build, paths, enums, structs, groups=(), cxx=None):
                        stdout=subprocess.PIPE, stderr=subprocess.STDOUT, text=True)
     if p.returncode != 0:
         raise TranslateError('c03_switch.cc', 'the parser missed an enumerator (or misread one): %s' % p.stdout[-1500:])
-    return values, classif, regs
+    return values, classif, regs, fres
 
 
 def extract(repo, build, cxx=None):
     """-> table dict (JSON-able)."""
-    paths, enums, structs, groups = parse_all(repo)
-    values, classif, regs = run_probe(repo, build, paths, enums, structs, groups, cxx)
+    paths, enums, structs, groups, forms = parse_all(repo)
+    values, classif, regs, fres = run_probe(repo, build, paths, enums, structs, groups, cxx, forms)
+    mt_members = [m for e in enums if e['name'] == 'MessageType' for m in e['members']]
     table = {
         'enums': [{'name': e['name'], 'underlying': e['underlying'], 'file': e['file'], 'line': e['line'],
                    'members': [[m, values[(e['name'], m)]] for m in e['members']]} for e in enums],
@@ -356,6 +535,10 @@ def extract(repo, build, cxx=None):
                           'members': [[m, values[(g['name'], m)]] for m in g['members']]} for g in groups],
         'classification': [[m, values[('MessageType', m)], classif[m][0], classif[m][1]]
                            for e in enums if e['name'] == 'MessageType' for m in e['members']],
+        'call_forms': [{'function': f['function'], 'param': f['param'], 'scope': f['scope'], 'text': f['text'], 'file': f['file'],
+                        'line': f['line'], 'call': (f['setup'] % 'NAME') + ' ' + f['call'],
+                        'results': [[m, values[('MessageType', m)], fres[(k, m)]] for m in mt_members]}
+                       for k, f in enumerate(forms)],
         'structs': [{'name': s['name'], 'file': s['file'], 'line': s['line'], 'type': regs[s['name']][0],
                      'version': regs[s['name']][1]} for s in structs],
         'n_enum_blocks': len(enums),
@@ -368,6 +551,9 @@ def extract(repo, build, cxx=None):
             code(m)
     for s in table['structs']:
         code(s['name'])
+    for f in table['call_forms']:
+        code(f['function'])
+        code(f['text'])
     return table
 
 
@@ -377,7 +563,8 @@ def to_lean(t):
          'GENERATED by tools/c03_cxx_extract.py from src/point_one/fusion_engine/messages/*.h - do not edit.',
          'Names are Nat codes (big-endian value of the UTF-8 bytes); every value was printed by a C++ probe',
          'compiled against the real headers: (long long)E::NAME, IsCommand/IsResponse(MessageType::NAME),',
-         'S::MESSAGE_TYPE, (int)S::MESSAGE_VERSION.',
+         'S::MESSAGE_TYPE, (int)S::MESSAGE_VERSION, and every declared overload of IsCommand / IsResponse called with',
+         'an argument of its declared parameter type.',
          '-/',
          'namespace FeVerif.C03.Cxx', '']
     for e in t['enums'] + t['const_groups']:
@@ -407,6 +594,22 @@ def to_lean(t):
     for k, (m, v, c, r) in enumerate(t['classification']):
         L.append('  (%s, %s, %s)%s -- %s' % (lean_int(v), str(c).lower(), str(r).lower(),
                                              ',' if k + 1 < len(t['classification']) else '', m))
+    L.append(']')
+    L.append('')
+    for k, f in enumerate(t['call_forms']):
+        L.append('/-- `%s` (%s:%d), called as `%s` for every MessageType enumerator NAME: (value, result) -/'
+                 % (f['text'], f['file'], f['line'], f['call']))
+        L.append('def callForm_%d : List (Int × Bool) := [' % k)
+        for j, (m, v, r) in enumerate(f['results']):
+            L.append('  (%s, %s)%s -- %s' % (lean_int(v), str(r).lower(), ',' if j + 1 < len(f['results']) else '', m))
+        L.append(']')
+        L.append('')
+    L.append('/-- every declared call form of the classification functions (each overload / member declared in the headers):')
+    L.append('(function name, declaration as written, results) -/')
+    L.append('def callForms : List (Nat × Nat × List (Int × Bool)) := [')
+    for k, f in enumerate(t['call_forms']):
+        L.append('  (%s, %s, callForm_%d)%s -- %s' % (lean_nat(f['function']), lean_nat(f['text']), k,
+                                                     ',' if k + 1 < len(t['call_forms']) else '', f['text']))
     L.append(']')
     L.append('')
     L.append('/-- every struct declaring MESSAGE_TYPE / MESSAGE_VERSION: (qualified name, type, version) -/')
